@@ -21,11 +21,11 @@ import (
 // Config says which nodes take part in a history.
 type Config struct {
 	Name       string `json:"name"`
-	SrcNew     bool   `json:"src_new_state"`  // backend of the source node (Finalise path); it is queried too
-	Dst        []bool `json:"dst_new_state"`  // backends of the destination nodes (Store path)
-	Pebble     bool   `json:"pebble"`         // destinations on pebblev2 instead of the memory DB
-	AllowDrain bool   `json:"allow_drain"`    // blocks may empty the storage of a system contract
-	Reopen     bool   `json:"reopen"`         // re-open every destination Blockchain on its DB before each check
+	SrcNew     bool   `json:"src_new_state"` // backend of the source node (Finalise path); it is queried too
+	Dst        []bool `json:"dst_new_state"` // backends of the destination nodes (Store path)
+	Pebble     bool   `json:"pebble"`        // destinations on pebblev2 instead of the memory DB
+	AllowDrain bool   `json:"allow_drain"`   // blocks may empty the storage of a system contract
+	Reopen     bool   `json:"reopen"`        // re-open every destination Blockchain on its DB before each check
 }
 
 func kindName(newState bool) string {
@@ -64,7 +64,7 @@ type Engine struct {
 	reverted []felt.Felt // hashes of reverted blocks (most recent last)
 	drained  map[felt.Felt]bool
 	stale    map[felt.Felt]map[felt.Felt]felt.Felt // shadow of stale trie2 leaves, see stale.go
-	emptied  bool // some block left a system contract with a diff entry and an empty storage
+	emptied  bool                                  // some block left a system contract with a diff entry and an empty storage
 	fails    []Failure
 	seen     map[string]bool
 	u        *Universe
@@ -74,6 +74,7 @@ type Engine struct {
 	scratch  string
 	stats    map[string]int
 	onCheck  func()
+	full     bool // read every view completely (replay / shrinking)
 }
 
 var versions = []string{"0.13.2", "0.13.4", "0.14.0", "0.14.1"}
